@@ -112,6 +112,78 @@ func init() {
 		Explanation: "real Step of either interpreter vs. spec/w65816 reference on the abstraction of the same symbolic pre-state and memory; one labelled obligation per architectural component",
 		ConformanceQuick: 64, ConformanceThorough: 2048,
 	})
+	modeNames := []string{"m0x0", "m0x1", "m1x0", "m1x1", "emu"}
+	props = append(props, &PropDef{
+		ID: "C02", Title: "The two CPU interpreters are observationally equivalent, cycle for cycle", Level: "model_checking",
+		Solver: "z3-new", Fallbacks: []string{"cvc5"}, TimeoutQuickMs: 20000,
+		Patterns: []string{"verif/harness/c02"},
+		Jobs: func(tier string) []sym.Job {
+			var js []sym.Job
+			for op := 0; op < 256; op++ {
+				for mode := 0; mode < 5; mode++ {
+					js = append(js, job("c02", "Lockstep", fmt.Sprintf("c02/%s/%s", opName(op), modeNames[mode]), int64(op), int64(mode)))
+				}
+			}
+			return js
+		},
+		Bounds:      []string{"one Step of each interpreter from one common arbitrary state: 256 opcodes x {4 native width settings, emulation mode}; all registers, hidden copies, D flag, stop latch, cycle counters, interrupt latch (none/NMI/IRQ) and 16 MiB memory symbolic", "any number of steps: by induction (equal post-states are a common pre-state again)"},
+		Outside:     []string{"emulation mode with m=0 or x=0 (unreachable: XCE forces both)", "interrupt entry with the handler opcode inside the pushed stack frame (see assumptions)", "OnPC/OnWDM callbacks (C12)"},
+		Explanation: "both real Step functions run on the same symbolic state and memory; every exported register/flag/counter, the return values, failure status and memory (extensional) are compared",
+		ConformanceQuick: 64, ConformanceThorough: 2048,
+	})
+	props = append(props, &PropDef{
+		ID: "C08", Title: "The CPU stays inside the 24-bit address space and never crashes on mapped memory", Level: "model_checking",
+		Solver: "z3-new", Fallbacks: []string{"cvc5"}, TimeoutQuickMs: 20000,
+		Patterns: []string{"verif/harness/c08"},
+		Jobs: func(tier string) []sym.Job {
+			var js []sym.Job
+			for cpu := 0; cpu < 2; cpu++ {
+				for op := 0; op < 256; op++ {
+					for mode := 0; mode < 5; mode++ {
+						js = append(js, job("c08", "Step", fmt.Sprintf("c08/%s/%s/%s", cpuNames[cpu], opName(op), modeNames[mode]), int64(cpu), int64(op), int64(mode)))
+					}
+				}
+			}
+			return js
+		},
+		Bounds:      []string{"one Step from an arbitrary state: 2 interpreters x 256 opcodes x 5 mode settings; registers and memory symbolic", "the obligation is the engine's own set of Go runtime checks (index, slice, nil, divide, type assertion, explicit panic, log.Fatalf) on every feasible path"},
+		Outside:     []string{"where a wrapped access lands (bank $00) is compared with the reference model in C01", "partially mapped buses (an unmapped address is meant to fail loudly, C13)"},
+		Assumptions: []string{"backends hold exactly 2^24 bytes (RAM over a 16 MiB slice / closures indexing a 16 MiB slice): an address >= 2^24 reaching the bus or a backend is a Go index-out-of-range failure, so 'no failure' implies every access is below 2^24"},
+		Explanation: "every implicit Go check inside Step is a solver-decided fork; the job passes only if no panic outcome is feasible",
+		ConformanceQuick: 64, ConformanceThorough: 1024,
+	})
+	props = append(props, &PropDef{
+		ID: "C12", Title: "Step accounts cycles faithfully and RunUntil always stops within its budget", Level: "model_checking",
+		Solver: "z3-new", Fallbacks: []string{"cvc5"}, TimeoutQuickMs: 20000,
+		Patterns: []string{"verif/harness/c12"},
+		Jobs: func(tier string) []sym.Job {
+			var js []sym.Job
+			for cpu := 0; cpu < 2; cpu++ {
+				for op := 0; op < 256; op++ {
+					for mode := 0; mode < 5; mode++ {
+						js = append(js, job("c12", "StepLemma", fmt.Sprintf("c12/step-lemma/%s/%s/%s", cpuNames[cpu], opName(op), modeNames[mode]), int64(cpu), int64(op), int64(mode)))
+					}
+				}
+				js = append(js, job("c12", "ResetClearsStop", fmt.Sprintf("c12/reset/%s", cpuNames[cpu]), int64(cpu)))
+			}
+			for cpu := 0; cpu < 2; cpu++ {
+				for op := 0; op < 256; op++ {
+					for mode := 0; mode < 5; mode++ {
+						if mode != 3 && mode != 0 && op != 0x42 && tier != "thorough" {
+							continue // quick: callbacks under two width settings (all five for WDM)
+						}
+						js = append(js, job("c12", "Callbacks", fmt.Sprintf("c12/callbacks/%s/%s/%s", cpuNames[cpu], opName(op), modeNames[mode]), int64(cpu), int64(op), int64(mode)))
+					}
+				}
+			}
+			js = append(js, c12RunUntilJobs(tier)...)
+			return js
+		},
+		Bounds:      []string{"Step lemma: one Step, 2 interpreters x 256 opcodes x 5 mode settings, all state symbolic (direct-page alignment, page crossing, branch outcome, pending-interrupt latch included)", "callbacks: one Step with one registered program-counter callback at a symbolic address", "RunUntil: see the run-until jobs' own bounds (programs of at most K instructions from a fixed opcode alphabet, symbolic budget)"},
+		Outside:     []string{"runtime failures inside Step (C08)", "RunUntil for programs longer than the unrolling bound: follows from the Step lemma (cycles >= 1 makes the consumed-cycles counter strictly increasing) - argued, not solver-checked"},
+		Explanation: "Step lemma and callback obligations are per-opcode solver queries over an arbitrary state; RunUntil is the real loop run symbolically over short programs",
+		ConformanceQuick: 64, ConformanceThorough: 1024,
+	})
 	props = append(props, &PropDef{
 		ID: "C04", Title: "PakAddressToBus is a right inverse of BusAddressToPak", Level: "model_checking",
 		Patterns: []string{"verif/harness/c04"},
@@ -174,4 +246,20 @@ func init() {
 		TimeoutQuickMs: 8000, TimeoutThoroughMs: 60000, Fallbacks: []string{"cvc5-int", "cvc5"},
 		ConformanceQuick: 32, ConformanceThorough: 512,
 	})
+}
+
+func c12RunUntilJobs(tier string) []sym.Job {
+	k, budget := 2, 7
+	if tier == "thorough" {
+		k, budget = 3, 9
+	}
+	n := 1
+	for i := 0; i < k; i++ {
+		n *= 8
+	}
+	var js []sym.Job
+	for p := 0; p < n; p++ {
+		js = append(js, job("c12", "RunUntil", fmt.Sprintf("c12/run-until/k%d/prog%04o/budget<=%d", k, p, budget), int64(p), int64(k), int64(budget)))
+	}
+	return js
 }
